@@ -24,7 +24,7 @@ from typing import Any
 from vlib import oracles, tasks
 from vlib.campaign import Campaign
 from vlib.engine_d import Run, Schedule, inj_cancel, inj_signal
-from vlib.engine_i import Sched, explore, handle_one, run_schedule
+from vlib.engine_i import Sched, explore, handle_one, handle_upto, run_schedule
 from vlib.par import map_raw, run_shards
 from vlib.spec import build_workflow, emit, ok, stage
 from vlib.world import LONG_AGO, World
@@ -204,7 +204,20 @@ def pair_scenarios() -> dict[str, dict[str, Any]]:
         "cancel-vs-completetask": {"spec": chain, "hold": "CompleteTask:s|CancelStage:s", "workers": 2, "kind": "cancel", "cancel_when": "CompleteTask:s"},
         "signal-vs-suspend-persistent": {"spec": gate, "hold": "RunTask:g|SignalStage:g", "workers": 2, "kind": "signal", "persistent": True, "signal_when": "RunTask:g"},
         "signal-vs-suspend-transient": {"spec": gate, "hold": "RunTask:g|SignalStage:g", "workers": 2, "kind": "signal", "persistent": False, "signal_when": "RunTask:g"},
+        # the signal handler buffers on the NOT_STARTED gate while StartStage claims / plans it
+        "signal-vs-startstage-persistent": {"spec": gate, "hold": "StartStage:g|SignalStage:g", "workers": 2, "kind": "signal", "persistent": True, "signal_when": "StartStage:g"},
+        # a signal buffered before the gate suspends is consumed in the suspending commit, which queues the resume RunTask;
+        # a second worker of the same process polls it while the first is still inside its handler
+        "buffered-resume-vs-second-worker": {"spec": gate, "hold": "RunTask:g", "workers": 2, "kind": "signal", "persistent": True, "signal_when": "StartStage:g",
+                                             "second_worker_polls": 3},
+        "signal-vs-startstage-transient": {"spec": gate, "hold": "StartStage:g|SignalStage:g", "workers": 2, "kind": "signal", "persistent": False, "signal_when": "StartStage:g"},
     }
+
+
+def pair_programs(sc: dict[str, Any]):
+    if sc.get("second_worker_polls"):
+        return [handle_one(), handle_upto(sc["second_worker_polls"])]
+    return [handle_one() for _ in range(sc["workers"])]
 
 
 def _key(row: dict[str, Any]) -> str:
@@ -308,7 +321,7 @@ def shard_pair(prop: str, tier: str, seed: int, name: str, P: int, roots: list[d
     children: list[dict[int, int]] = []
 
     def progs(w: World):
-        return [handle_one() for _ in range(sc["workers"])]
+        return pair_programs(sc)
 
     def j(w: World, s: Sched, pre: dict[int, int]) -> None:
         judge_pair(c, name, sc, w, s, pre, ["exhaustive"])
@@ -389,7 +402,7 @@ def regress(c: Campaign, rec: dict[str, Any]) -> None:
     if case["kind"] == "pair":
         sc = pair_scenarios()[case["scenario"]]
         prep = prepare_pair(sc)
-        w, s = run_schedule(make_pair_world(prep, sc), lambda w_: [handle_one() for _ in range(sc["workers"])], pre)
+        w, s = run_schedule(make_pair_world(prep, sc), lambda w_: pair_programs(sc), pre)
         judge_pair(c, case["scenario"], sc, w, s, pre, ["regression"])
     else:
         results: dict[int, Any] = {}
